@@ -62,24 +62,20 @@ func (q *IndexNotificationQueue) Run() {
 			return
 		case <-gc.C:
 			iter.Consume(q.items.Values(), func(h *heap.Heap[*item]) {
-				l := h.Len()
-				for i := 0; i < l; i++ {
-					elem := h.Slice[i]
-					if elem.ctx.Err() != nil {
-						// Reorder
-						elem.revision = 0
-						elem.waitCh <- elem.ctx.Err()
-					}
-				}
-				h.Fix(0)
-				for i := 0; i < l; i++ {
-					elem := h.Peek()
-					if elem.revision == 0 {
-						h.Pop()
+				// Answer and drop every expired item wherever it sits, keep the rest and restore the heap order.
+				items := h.Slice
+				kept := items[:0]
+				for _, elem := range items {
+					if err := elem.ctx.Err(); err != nil {
+						elem.waitCh <- err
 					} else {
-						break
+						kept = append(kept, elem)
 					}
 				}
+				for i := len(kept); i < len(items); i++ {
+					items[i] = nil
+				}
+				*h = *heap.New(h.Less, kept...)
 			})
 		case it := <-q.add:
 			h, _ := q.items.Load(it.table)
